@@ -228,7 +228,11 @@ def _diff(
                 ignore=ignore,
             )
         except FileNotFoundError:
-            pass
+            # nothing at `path` yet.  Anything else that could not be read
+            # (e.g. a broken symlink inside an existing directory) must not
+            # make the existing workspace data look absent.
+            if fs.exists(path):
+                raise
 
     diff = odiff(old, obj, cache)
     if relink:
